@@ -172,4 +172,15 @@ theorem multipart_only_for_two_or_more (q : Req) (e : Ent) (now : Nat) (r : Resp
   | full => rw [hbr] at hp; simp [Br.resp, simpleResp] at hp; split at hp <;> cases hp
   | _ => rw [hbr] at hp; simp [Br.resp] at hp
 
+theorem commonHeaders_no_mtime (e : Ent) (now now' : Nat) (h : e.mtime = none) :
+    commonHeaders e now = commonHeaders e now' := by
+  simp [commonHeaders, h]
+
+/-- An entity without a (usable) modification time is served without consulting the clock at
+all: the whole response is the same at any time. -/
+theorem no_mtime_no_clock (q : Req) (e : Ent) (now now' : Nat) (h : e.mtime = none) :
+    serve q e now = serve q e now' := by
+  unfold serve
+  rw [commonHeaders_no_mtime e now now' h]
+
 end HS
